@@ -529,3 +529,31 @@ QUERIES = {
 MUTATORS = {c.__name__: c for c in (add_atom, remove_atom, set_atom_attribute, delete_atom_attribute, add_bond, add_formed_bond, add_broken_bond, add_fleeting_bond,
                                     remove_bond, set_bond_attribute, delete_bond_attribute, set_atom_stereo, delete_atom_stereo, set_bond_stereo,
                                     delete_bond_stereo, set_atom_stereo_change, set_bond_stereo_change, delete_atom_stereo_change, delete_bond_stereo_change)}
+
+
+# ---- C08: the formed / broken / fleeting bond sets are exactly the bonds carrying that change ---------------------------
+def _role_query(label):
+    from .loop_invariants import LOOPS
+
+    class _Q(Query):
+        classes = REACTION
+        pid = "C08"
+        loop_contracts = LOOPS
+
+        def args(self, it, g, cname):
+            return [], {}, {}
+
+        def result_post(self, v0, sym, res, h1):
+            b = z3.Const("rb", BondS)
+            if not isinstance(res, H.SetRef):
+                return [("is-a-set", z3.BoolVal(False))]
+            mem = h1.s_has(res.t, res.ref, b)
+            is_role = z3.And(v0.bond(b), v0.battr_has(b, H.K_REACTION), v0.battr_val(b, H.K_REACTION) == ValS.VChg(H.CHG[label]))
+            return [(f"exactly-the-{label.lower()}-bonds", z3.ForAll([b], z3.Implies(BondS.lo(b) <= BondS.hi(b), mem == is_role))),
+                    ("result-is-a-new-set", res.ref >= v0.h.A0)]
+
+    _Q.__name__ = f"get_{label.lower()}_bonds"
+    return _Q
+
+
+ROLE_QUERIES = {f"get_{l.lower()}_bonds": _role_query(l) for l in ("FORMED", "BROKEN", "FLEETING")}
